@@ -14,14 +14,18 @@ cfg comp=serializer ports=3 depth=2 w=4 order=0,1,2
   cyc in=1,-,3 out=101 req=1 resp=1 rdata=9 clr=0
                                      → in=0 rq=1 out=- data=- rs=0 clr=0
 ```
+Two callers per method (exclusive methods grant at most one): zipper `cfg … twin=<3 bits>` (per
+write_args/write_results/read: the second caller has priority), ops carry `wa2= wr2= rd2=`, the answer
+gets ` who=<wa><wr><rd>` (0 none, 1/2 = executing caller); serializer `cfg … order=<2n slots>
+oorder=<2n slots>`, `in=`/`out=` have 2n entries (slot k calls port k % n) and the answer names slots.
 `order` = scheduling order of the request ports read from the real manager; it must be a
 permutation of the ports (`bad-cfg` otherwise).
 -/
 
 inductive Cfg
   | none
-  | zipper (s : ZState)
-  | serializer (ports depth : Nat) (order : List Nat) (s : SState)
+  | zipper (twin : Option (Bool × Bool × Bool)) (s : ZState)
+  | serializer (ports depth : Nat) (order : List Nat) (twin : Option (List Nat)) (s : SState)
 
 def isPerm (l : List Nat) (n : Nat) : Bool :=
   l.length == n && (List.range n).all (fun k => l.contains k)
@@ -50,12 +54,23 @@ def bit? (t : List String) (key : String) : Option Bool :=
 def parseCfg (t : List String) : Option Cfg := do
   let comp ← kv? t "comp"
   match comp with
-  | "zipper" => pure (Cfg.zipper zInit)
+  | "zipper" =>
+    match kv? t "twin" with
+    | none => pure (Cfg.zipper none zInit)
+    | some v => match bits? v with
+      | some [x, y, z] => pure (Cfg.zipper (some (x, y, z)) zInit)
+      | _ => none
   | "serializer" =>
     let ports ← nat? t "ports"
     let depth ← nat? t "depth"
     let o ← (kv? t "order").bind natList?
-    if !isPerm o ports then none else pure (Cfg.serializer ports depth o sInit)
+    match kv? t "oorder" with
+    | none => if !isPerm o ports then none else pure (Cfg.serializer ports depth o none sInit)
+    | some v =>
+      -- two callers per port: `order` / `oorder` are priority orders of the 2*ports slots
+      let oo ← natList? v
+      if ports = 0 || !isPerm o (2 * ports) || !isPerm oo (2 * ports) then none
+      else pure (Cfg.serializer ports depth o (some oo) sInit)
   | _ => none
 
 def showPair : Option (Nat × Nat) → String
@@ -65,15 +80,38 @@ def showPair : Option (Nat × Nat) → String
 def stepCyc (c : Cfg) (t : List String) : Option (Cfg × String) :=
   match c with
   | .none => none
-  | .zipper s => do
+  | .zipper (some pr) s => do
+    let wa ← callOf t "wa"
+    let wr ← callOf t "wr"
+    let rd ← bit? t "rd"
+    let pk ← bit? t "pk"
+    let wa2 ← callOf t "wa2"
+    let wr2 ← callOf t "wr2"
+    let rd2 ← bit? t "rd2"
+    let (s', o, who) := zStepTwin pr s { wa := wa, wr := wr, rd := rd, pk := pk } { wa := wa2, wr := wr2, rd := rd2, pk := false }
+    pure (Cfg.zipper (some pr) s',
+      s!"wa={showBool o.wa.isSome} wr={showBool o.wr.isSome} rd={showPair o.rd} pk={showOpt o.pk} who={who.wa}{who.wr}{who.rd}")
+  | .zipper none s => do
     let wa ← callOf t "wa"
     let wr ← callOf t "wr"
     let rd ← bit? t "rd"
     let pk ← bit? t "pk"
     let (s', o) := zStep s { wa := wa, wr := wr, rd := rd, pk := pk }
-    pure (Cfg.zipper s',
+    pure (Cfg.zipper none s',
       s!"wa={showBool o.wa.isSome} wr={showBool o.wr.isSome} rd={showPair o.rd} pk={showOpt o.pk}")
-  | .serializer ports depth order s => do
+  | .serializer ports depth order (some oorder) s => do
+    let ins ← (kv? t "in").bind optList?
+    let outs ← (kv? t "out").bind bits?
+    let req ← bit? t "req"
+    let resp ← bit? t "resp"
+    let rdata ← nat? t "rdata"
+    let clr ← bit? t "clr"
+    if ins.length != 2 * ports || outs.length != 2 * ports then none else
+    let (s', o, si, so) := sStepTwin ports depth order oorder s
+      { ins := ins, outs := outs, reqRdy := req, respRdy := resp, respData := rdata, clr := clr }
+    pure (Cfg.serializer ports depth order (some oorder) s',
+      s!"in={showOpt si} rq={showOpt o.reqCall} out={showOpt so} data={showOpt (o.outDone.map (·.2))} rs={showBool o.respCall.isSome} clr={showBool o.clr}")
+  | .serializer ports depth order none s => do
     let ins ← (kv? t "in").bind optList?
     let outs ← (kv? t "out").bind bits?
     let req ← bit? t "req"
@@ -83,7 +121,7 @@ def stepCyc (c : Cfg) (t : List String) : Option (Cfg × String) :=
     if ins.length != ports || outs.length != ports then none else
     let (s', o) := sStep depth order s
       { ins := ins, outs := outs, reqRdy := req, respRdy := resp, respData := rdata, clr := clr }
-    pure (Cfg.serializer ports depth order s',
+    pure (Cfg.serializer ports depth order none s',
       s!"in={showOpt (o.inDone.map (·.1))} rq={showOpt o.reqCall} out={showOpt (o.outDone.map (·.1))} data={showOpt (o.outDone.map (·.2))} rs={showBool o.respCall.isSome} clr={showBool o.clr}")
 
 def stepLine (c : Cfg) (line : String) : Cfg × String :=
